@@ -126,6 +126,19 @@ def generate(rng, tier):
     for c in cases:
         if any(e == "F" for e in c["events"]) and rng.random() < 0.5:
             c["close_raises"] = rng.choice(["os", "os", True]); c["family"] += "/close-would-fail"
+    # runs of 8..35 commands (no query in between), every acknowledgement arriving after 1-4 timed-out reads: the allowance of 25 empty
+    # reads is per request, however many were used up by the requests before
+    for _ in range(8 if tier == "quick" else 400):
+        k = rng.choice([1, 2, 3, 4]); lo = max(8, 26 // k + 1); m = rng.randint(lo, lo + 8)
+        calls = [rng.choice([("command", "SM,%d,0,0" % rng.randint(1, 700)), ("xy", 3, 4, 50), ("pen_lower", 100, None), ("pause", 300), ("motors_off",), ("command", "SP,1")]) for _ in range(m)]
+        parts = []
+        for c0 in calls:
+            nom = S.nominal(c0, rng); ev = []
+            for e in nom:
+                ev += (["E"] * k if isinstance(e, tuple) else []) + [e]
+            parts.append(ev)
+        tail = ("query", "QB"); calls.append(tail); parts.append(S.nominal(tail, rng))
+        add(calls, parts, "run-of-slow-commands/%d-empties-each" % k, [_expected(c0, p0) for c0, p0 in zip(calls, parts)])
     # 3. attribution: undisturbed sequences
     for _ in range(60 if tier == "quick" else 4000):
         calls = [S.random_call(rng) for _ in range(rng.randint(2, 5))]
